@@ -108,7 +108,7 @@ func newEnv() (*env, error) {
 		return nil, err
 	}
 	node.OnConnecting(func(ctx context.Context, ev centrifuge.ConnectEvent) (centrifuge.ConnectReply, error) {
-		return centrifuge.ConnectReply{Credentials: &centrifuge.Credentials{UserID: "u1"}}, nil
+		return centrifuge.ConnectReply{Credentials: &centrifuge.Credentials{UserID: "u-" + ev.Name}}, nil
 	})
 	node.OnConnect(func(c *centrifuge.Client) {
 		select {
@@ -815,15 +815,24 @@ func connectCentrifuge(c *kit.Case, e *env, compress bool) (*rawClient, *centrif
 		return nil, nil, false, fmt.Sprintf("baseline handshake failed: %v", err)
 	}
 	deflate := strings.Contains(resp.Header.Get("Sec-Websocket-Extensions"), "permessage-deflate")
-	rc.send(wsmodel.Frame{Fin: true, Opcode: wsmodel.OpText, Payload: []byte(`{"id":1,"connect":{}}`)}, c.R)
-	select {
-	case cl := <-e.clients:
-		return rc, cl, deflate, ""
-	case <-time.After(bound):
-		rc.pc.Close()
-		return nil, nil, false, "client did not connect within the bound"
+	// the connection is recognised by a unique name (OnConnect of an earlier trial's connection may still be in flight)
+	name := fmt.Sprintf("t%d-%d", c.Index, trialSeq.Add(1))
+	rc.send(wsmodel.Frame{Fin: true, Opcode: wsmodel.OpText, Payload: []byte(`{"id":1,"connect":{"name":"` + name + `"}}`)}, c.R)
+	timeout := time.After(bound)
+	for {
+		select {
+		case cl := <-e.clients:
+			if cl.UserID() == "u-"+name {
+				return rc, cl, deflate, ""
+			}
+		case <-timeout:
+			rc.pc.Close()
+			return nil, nil, false, "client did not connect within the bound"
+		}
 	}
 }
+
+var trialSeq atomic.Int64
 
 func disconnectTrial(c *kit.Case, e *env) (*verdict, string, map[string]any) {
 	r := c.R
@@ -979,7 +988,7 @@ func receivedCloseTrial(c *kit.Case, e *env) (*verdict, string, map[string]any) 
 	}
 	defer rc.pc.Close()
 	defer conn.Close()
-	scenario := kit.Pick(r, []string{"valid", "valid", "forbidden", "forbidden", "bad-utf8", "unspecified", "empty", "server-first", "client-first-then-server", "two-client-closes", "race", "race"})
+	scenario := kit.Pick(r, []string{"valid", "valid", "forbidden", "forbidden", "bad-utf8", "unspecified", "empty", "server-first", "client-first-then-server", "two-client-closes", "race", "race", "race", "race"})
 	det := map[string]any{"scenario": scenario}
 	reason := reasonOfLen(r, kit.Pick(r, []int{0, 0, 3, 50, 123}))
 	readErr := func() (error, *websocket.CloseError) {
@@ -1203,7 +1212,7 @@ func report(c *kit.Case, v *verdict, detail any) {
 }
 
 func TestC31(t *testing.T) {
-	const nHandshake, nDisconnect, nReceived = 40, 8, 16
+	const nHandshake, nDisconnect, nReceived = 40, 8, 20
 	kit.Main(t, kit.Spec{
 		ID:    "C31",
 		Level: "exploration",
